@@ -388,6 +388,20 @@ func (e *Exec) fUnX(name string, a Float) Float {
 		e.declare(k, "Int")
 		e.sol.Send(fmt.Sprintf("(assert (and (< (- (to_real %s) 1.0) %s) (<= %s (to_real %s))))", k, a.Sym, a.Sym, k))
 		return Float{Sym: "(to_real " + k + ")", IntR: k}
+	case "trunc", "round":
+		if a.IntR != "" && a.Scale >= 0 {
+			return a
+		}
+		k := e.fresh("rk")
+		e.declare(k, "Int")
+		if name == "trunc" {
+			// toward zero: k = floor(a) for a >= 0, ceil(a) for a < 0
+			e.sol.Send(fmt.Sprintf("(assert (ite (>= %s 0.0) (and (<= (to_real %s) %s) (< %s (+ (to_real %s) 1.0))) (and (< (- (to_real %s) 1.0) %s) (<= %s (to_real %s)))))", a.Sym, k, a.Sym, a.Sym, k, k, a.Sym, a.Sym, k))
+		} else {
+			// half away from zero: k - 1/2 <= a < k + 1/2 for a >= 0, k - 1/2 < a <= k + 1/2 for a < 0
+			e.sol.Send(fmt.Sprintf("(assert (ite (>= %s 0.0) (and (<= (- (to_real %s) 0.5) %s) (< %s (+ (to_real %s) 0.5))) (and (< (- (to_real %s) 0.5) %s) (<= %s (+ (to_real %s) 0.5)))))", a.Sym, k, a.Sym, a.Sym, k, k, a.Sym, a.Sym, k))
+		}
+		return Float{Sym: "(to_real " + k + ")", IntR: k}
 	}
 	e.unsupported("relaxed encoding of math.%s", name)
 	return Float{}
